@@ -327,7 +327,10 @@ class Theory:
         
         """
         if seq.rule == "":
-            # Empty line in the proof
+            # Empty line in the proof. It justifies nothing, so it must not
+            # carry a statement that later lines (or the caller) could use.
+            if seq.th is not None:
+                raise CheckProofException("empty line cannot state a theorem")
             return None
 
         if seq.rule == "sorry":
